@@ -21,7 +21,7 @@ def _e1(pid, wall_q=75, wall_t=900, min_q=20, min_t=100, assumptions=None):
     }
 
 
-for _p in ('C01', 'C02', 'C03', 'C04', 'C05', 'C06', 'C07', 'C09', 'C10', 'C12', 'C18', 'C20'):
+for _p in ('C01', 'C02', 'C03', 'C04', 'C05', 'C06', 'C07', 'C09', 'C10', 'C12', 'C16', 'C17', 'C18', 'C20'):
     _e1(_p)
 
 PROPS['C08'] = {
@@ -98,4 +98,18 @@ PROPS['C14'] = {
     'min_nontrivial': {'quick': 20, 'thorough': 100},
     'assumptions': ['sockets and poller are simulated (rv/socksim.py); only physically possible faults are generated',
                     'lingering dead sockets are counted in the evidence, not judged'],
+}
+
+PROPS['C19'] = {
+    'engine': 'rv.threadstress', 'level': 'exploration',
+    'rule': ('one case = a real 1-node (4 of 5 cases) or 3-node loopback cluster with autoTick threads, 2-16 caller threads x 30-300 calls '
+             '(fire-and-forget, callback, sync with and without timeout; every 7th case a 6000-call-per-thread flood in unbatched mode), queue '
+             'limits 0/1/5/100000, batched or unbatched appends, and sys.monitoring LINE-event yield injection (rate 0-5%) on the command '
+             'queue, pipe notifier, apply loop, replicated wrapper and AsyncResult code. Real time, real sockets. distinct non-trivial = '
+             'distinct hash of the global order of submit-return / apply / callback events of a case in which something was applied.'),
+    'wall_cap': {'quick': 110, 'thorough': 1500},
+    'min_nontrivial': {'quick': 20, 'thorough': 100},
+    'max_jobs': 12,
+    'assumptions': ['interleavings are sampled by the OS scheduler plus injected yields under the GIL; they are not enumerable and not exactly replayable',
+                    'loopback TCP and wall-clock time are real in this engine; a run that misses its watchdog is inconclusive, not a violation'],
 }
